@@ -107,7 +107,27 @@ func checkCloneCompleteness(c *Ctx, rule string) {
 			}
 		}
 	}
-	c.Check(okM && okU && okR, rule, "clone:definition", p.Pos(clone.Pos()), "Marshal(receiver) → Unmarshal into a fresh Table → that Table", fmt.Sprintf("Table.Clone is not a JSON round trip of its receiver into a fresh table (marshal receiver=%v, unmarshal those bytes=%v, return that table=%v)", okM, okU, okR))
+	// the decode target starts as the zero Table: decoding into a copy of the receiver would decode
+	// THROUGH its non-nil pointers, so that the "clone" shares the live state
+	if al := rootAlloc(target); al != nil && al.Referrers() != nil {
+		for _, r := range *al.Referrers() {
+			switch x := r.(type) {
+			case *ssa.Store:
+				if x.Addr == ssa.Value(al) {
+					okU = false
+				}
+			case *ssa.FieldAddr:
+				if x.Referrers() != nil {
+					for _, r2 := range *x.Referrers() {
+						if _, isSt := r2.(*ssa.Store); isSt {
+							okU = false
+						}
+					}
+				}
+			}
+		}
+	}
+	c.Check(okM && okU && okR, rule, "clone:definition", p.Pos(clone.Pos()), "Marshal(receiver) → Unmarshal into a fresh (zero) Table → that Table", fmt.Sprintf("Table.Clone is not a JSON round trip of its receiver into a fresh, zero table (marshal receiver=%v, unmarshal those bytes into a zero value=%v, return that table=%v)", okM, okU, okR))
 }
 
 func hasViolation(c *Ctx, rule, prefix string) bool {
